@@ -611,6 +611,7 @@ func checkC15(c *Ctx, r *Report) {
 	}
 	ruleMustCall(c, r, "C15.e", fc, pkgPaths+".inPlaceSortConflicts", "the conflict list is sorted before it is returned")
 
+	ruleNoCompaction(c, r, "C15.b", "core/validators")
 	// every element filter in these packages is a reviewed one
 	ruleSkipInventory(c, r, "C15.b", loadSkipTable(c.VerifDir), 5, "core/validators/paths")
 }
